@@ -10,6 +10,10 @@ CLAIMED = {
   "Lean 4 theorems (C03_query_spec, C03_point_spec, C03_contains_iff, C03_build_total, C03_match_spec) prove for every finite list of closed intervals over any linear order and every query that the centred-interval-tree model returns exactly the overlapping indices, each once, and that the match model pairs exactly the widened-overlapping files; the model is tied to typhon/trees.py and FileSet.match on every run by a correspondence check (same inputs through the compiled Lean driver and the real code) plus a brute-force oracle on the real code.",
   "Trusted: Lean kernel, propext/Classical.choice/Quot.sound, the hand-written model + correspondence sampling (numpy primitives modelled, not verified); find() results feeding match() are taken from the real code (C01).",
   "Lean 4 proof about a hand-written executable model + differential correspondence with the implementation"),
+ "C09": ("numeric",
+  "Lean 4 theorems about the real-number reading of typhon/physics/atmosphere.py that tools/py2lean REGENERATES from /repo on every run (30 theorems: the six converter inverses, all six two-step routes, 0->0, ranges, strict monotonicity of all six converters, positivity and the rejection guard of the Murphy-Koop formulas, strict monotonicity of e_eq_ice_mk on [100,400] K, the three branches / continuity at both branch temperatures / betweenness of e_eq_mixed_mk, RH<->vmr inverses for any saturation function, 0 < moist lapse rate < g/cp and its dry limit).  A source change that breaks a law breaks a proof; the check then searches the real code for a failing input with an exact-Fraction / longdouble oracle.",
+  "Trusted: Lean kernel + 3 standard axioms; the translator tools/py2lean (validated each run by cross-running the Float reading of the same AST against numpy); floating point, numpy broadcasting and masks are modelled pointwise, not verified.  NOT proved (swept numerically only): monotonicity of e_eq_water_mk, ice <= liquid below the triple point and their 1e-6 agreement there.",
+  "Lean 4 proof over a model regenerated from the source by a translator (py2lean) + Float cross-run + exact oracle"),
 }
 NOT_YET = "no Lean model built yet for this property (under construction; see DESIGN.md section 6) - not claimed rather than served by another technique"
 
